@@ -52,17 +52,8 @@ impl<'a> Read for Frag<'a> {
 	}
 }
 
-// @verif property=C11 tier=quick mem=12 timeout=1500
-// @encodes peppi::io::HashingReader::{new, read} (through Read::read_exact), hashing on
-// @symbolic 110 8 data bytes; sizes of two read_exact calls; how many bytes every underlying read returns
-// @bound 8 bytes of stream, 2 read_exact calls, every fragmentation into short reads
-// @stub xxhash_rust::xxh3::Xxh3::update = recorder appending its input to a log (XXH3 itself is trusted: streaming contract)
-// @replay twin=c11_twin_native
-#[kani::proof]
-#[kani::unwind(10)]
-#[kani::stub(xxhash_rust::xxh3::Xxh3::update, update_rec)]
-fn c11_hr_feeds_exactly() {
-	let data: [u8; 8] = kani::any();
+fn hr_feeds_exactly<const N: usize>() {
+	let data: [u8; N] = kani::any();
 	unsafe {
 		LOG_N = 0;
 		LOG_OVERFLOW = false;
@@ -70,25 +61,24 @@ fn c11_hr_feeds_exactly() {
 	let mut hr = VerifHashingReader::new(Frag { data: &data, pos: 0 }, true);
 	let a: usize = kani::any();
 	let b: usize = kani::any();
-	kani::assume(a <= 8 && b <= 8);
-	let mut buf = [0u8; 8];
+	kani::assume(a <= N && b <= N);
+	let mut buf = [0u8; N];
 	let mut consumed = 0;
 	let r1 = hr.read_exact(&mut buf[..a]);
 	if r1.is_ok() {
 		consumed += a;
-		let mut buf2 = [0u8; 8];
+		let mut buf2 = [0u8; N];
 		let r2 = hr.read_exact(&mut buf2[..b]);
 		if r2.is_ok() {
 			consumed += b;
-			kani::cover!(a > 1 && b > 1, "two multi-byte reads");
 		} else {
 			// a failed read_exact consumed whatever was left
-			consumed = 8;
-			assert!(a + b > 8);
+			consumed = N;
+			assert!(a + b > N);
 		}
 		forget(r2);
 	} else {
-		assert!(false); // a <= 8 bytes are always available for the first call
+		assert!(false); // a <= N bytes are always available for the first call
 	}
 	unsafe {
 		// the hasher saw exactly the bytes the reader handed out: same count, same order, same values
@@ -102,9 +92,37 @@ fn c11_hr_feeds_exactly() {
 	kani::assume(j < a);
 	assert!(buf[j] == data[j]);
 	assert!(hr.hashing());
-	kani::cover!(consumed == 8, "whole stream");
 	forget(r1);
 	forget(hr);
+}
+
+// @verif property=C11 tier=quick mem=12 timeout=1500
+// @encodes peppi::io::HashingReader::{new, read} (through Read::read_exact), hashing on
+// @symbolic 80 5 data bytes; sizes of two read_exact calls; how many bytes every underlying read returns
+// @bound 5 bytes of stream, 2 read_exact calls, every fragmentation into short reads
+// @stub xxhash_rust::xxh3::Xxh3::update = recorder appending its input to a log (XXH3 itself is trusted: streaming contract)
+// @replay twin=c11_twin_native_5
+#[kani::proof]
+#[kani::unwind(8)]
+#[kani::stub(xxhash_rust::xxh3::Xxh3::update, update_rec)]
+fn c11_hr_feeds_exactly() {
+	hr_feeds_exactly::<5>();
+	kani::cover!(unsafe { LOG_N } == 5, "whole stream");
+	kani::cover!(unsafe { LOG_N } == 2, "two bytes");
+}
+
+// @verif property=C11 tier=thorough mem=12 timeout=2400
+// @encodes peppi::io::HashingReader::{new, read} (through Read::read_exact), hashing on
+// @symbolic 110 8 data bytes; sizes of two read_exact calls; how many bytes every underlying read returns
+// @bound 8 bytes of stream, 2 read_exact calls, every fragmentation into short reads
+// @stub xxhash_rust::xxh3::Xxh3::update = recorder appending its input to a log
+// @replay twin=c11_twin_native_8
+#[kani::proof]
+#[kani::unwind(10)]
+#[kani::stub(xxhash_rust::xxh3::Xxh3::update, update_rec)]
+fn c11_hr_feeds_exactly_8() {
+	hr_feeds_exactly::<8>();
+	kani::cover!(unsafe { LOG_N } == 8, "whole stream");
 }
 
 // @verif property=C11 tier=quick mem=12 timeout=1200
@@ -166,15 +184,7 @@ impl<'a> Seek for SliceRS<'a> {
 	}
 }
 
-// @verif property=C11 tier=quick mem=12 timeout=1200
-// @encodes peppi::io::HashingReader::{seek, into_digest}: seeking disables the hash
-// @symbolic 72 8 data bytes; seek distance
-// @bound 8 bytes; one read, one seek
-// @stub xxhash_rust::xxh3::Xxh3::update = recorder
-#[kani::proof]
-#[kani::unwind(10)]
-#[kani::stub(xxhash_rust::xxh3::Xxh3::update, update_rec)]
-fn c11_hr_seek_disables() {
+fn seek_disables(d: i64) {
 	let data: [u8; 8] = kani::any();
 	unsafe { LOG_N = 0 };
 	let mut hr = VerifHashingReader::new(SliceRS { data: &data, pos: 0 }, true);
@@ -182,44 +192,61 @@ fn c11_hr_seek_disables() {
 	let r1 = hr.read_exact(&mut buf);
 	assert!(r1.is_ok());
 	assert!(hr.hashing());
-	let d: i64 = kani::any();
-	kani::assume(d >= 0 && d <= 6);
 	let r2 = hr.seek(SeekFrom::Current(d));
 	assert!(r2.is_ok());
 	// bytes were skipped without being hashed: no digest may be reported any more
 	assert!(!hr.hashing());
 	let dig = hr.into_digest();
 	assert!(dig.is_none());
-	kani::cover!(d == 0, "zero-distance seek");
-	kani::cover!(d == 6, "seek to the end");
 	forget(r1);
 	forget(r2);
 	forget(dig);
 }
 
-/// `Frag` for native runs: same choice points, values supplied by the replayed counterexample.
-/// Native twin of `c11_hr_feeds_exactly` (replay target: the harness's oracle is a stub).
-/// Same sequence of kani::any() values, real XXH3: the digest must be the one-shot XXH3-64 of
-/// exactly the bytes consumed.
-pub fn c11_twin_native() {
-	let data: [u8; 8] = kani::any();
+// @verif property=C11 tier=quick mem=12 timeout=1200
+// @encodes peppi::io::HashingReader::{seek, into_digest}: seeking disables the hash
+// @symbolic 192 8 data bytes per call
+// @bound 8 bytes; one read, one seek by 0, 3 and 6 bytes (concrete distances: with a symbolic distance the failing-seek path keeps the hasher alive and drags XXH3's finalisation and core::fmt into the formula - 19 min)
+// @stub xxhash_rust::xxh3::Xxh3::update = recorder
+// @stub alloc::fmt::format = returns an empty String
+#[kani::proof]
+#[kani::unwind(10)]
+#[kani::stub(xxhash_rust::xxh3::Xxh3::update, update_rec)]
+#[kani::stub(alloc::fmt::format, format_stub)]
+fn c11_hr_seek_disables() {
+	seek_disables(0);
+	seek_disables(3);
+	seek_disables(6);
+	kani::cover!(true, "reached");
+}
+
+fn twin_native<const N: usize>() {
+	let data: [u8; N] = kani::any();
 	let mut hr = VerifHashingReader::new(Frag { data: &data, pos: 0 }, true);
 	let a: usize = kani::any();
 	let b: usize = kani::any();
-	if a > 8 || b > 8 {
+	if a > N || b > N {
 		return;
 	}
-	let mut buf = [0u8; 8];
+	let mut buf = [0u8; N];
 	let mut consumed = 0;
 	if hr.read_exact(&mut buf[..a]).is_ok() {
 		consumed += a;
-		let mut buf2 = [0u8; 8];
+		let mut buf2 = [0u8; N];
 		if hr.read_exact(&mut buf2[..b]).is_ok() {
 			consumed += b;
 		} else {
-			consumed = 8;
+			consumed = N;
 		}
 	}
 	let want = format!("xxh3:{:016x}", xxhash_rust::xxh3::xxh3_64(&data[..consumed]));
 	assert!(hr.into_digest() == Some(want), "digest is not XXH3-64 of the bytes consumed");
+}
+
+pub fn c11_twin_native_5() {
+	twin_native::<5>();
+}
+
+pub fn c11_twin_native_8() {
+	twin_native::<8>();
 }
